@@ -27,7 +27,7 @@ var runActive atomic.Int64 // unix nanos when the current run started (0 = idle)
 
 // runOne executes one run of a property with the given choice source.
 func runOne(t *testing.T, prop, tier string, seed uint64, ch *Choice, params map[string]string) (rc *RunCtx) {
-	rc = &RunCtx{Property: prop, Tier: tier, Seed: seed, Ch: ch, Stats: NewStats(), Params: params}
+	rc = &RunCtx{Property: prop, Tier: tier, Seed: seed, Ch: ch, Stats: NewStats(), Params: params, Local: map[string]string{}}
 	fn := propRunners[prop]
 	if fn == nil {
 		t.Fatalf("no runner for property %s", prop)
